@@ -271,7 +271,7 @@ let run_case (env : mdesc array) (envl : mdesc list) (line : string) : string op
             let evs2 = List.rev st2.b_log in
             let nfree = List.length (List.filter (function BFree _ -> true | _ -> false) evs2) in
             let fscr = List.exists (function BFreeScratch -> true | _ -> false) evs2 in
-            Buffer.add_string b (Printf.sprintf "BF %d %d %d %s %d %s %d %d %d"
+            Buffer.add_string b (Printf.sprintf "BF %d %d %d %s %d %s %d %d %d 0"
                                    (int_of_z st.b_alloced) (int_of_z st.b_len) (if st.b_must_free then 1 else 0)
                                    (hex_of_bytes st.b_data) (List.length sizes)
                                    (if sizes = [] then "-" else String.concat "," sizes)
